@@ -8,6 +8,6 @@ git -C /repo worktree add -q --detach $S/repo HEAD || exit 2
 (cd /repo && for f in $(git ls-files -m -o --exclude-standard | grep verif_contracts.go); do cp $f $S/repo/$f; done)
 rsync -a --exclude .git --exclude out --exclude evidence /verif/ $S/verif/
 if git -C $S/repo apply $d/patch.diff; then
-  (cd $S/verif && bin/govc check -p $p -repo $S/repo -verif $S/verif 2>&1 | grep -E "VIOLATION|KNOWN|obligations" | cut -c1-260)
+  (cd $S/verif && ${GOVC:-bin/govc} check -p $p -repo $S/repo -verif $S/verif 2>&1 | grep -E "VIOLATION|KNOWN|obligations" | cut -c1-260)
 fi
 git -C /repo worktree remove --force $S/repo 2>/dev/null; rm -rf $S
